@@ -78,12 +78,13 @@ type pconf struct {
 }
 
 type session struct {
-	o    Options
-	rng  *rand.Rand
-	rmu  sync.Mutex // protects rng use from many goroutines
-	log  *rec.Buf
-	run  int
-	conf sync.Map // full plugin name -> pconf
+	o      Options
+	rng    *rand.Rand
+	rmu    sync.Mutex // protects rng use from many goroutines
+	log    *rec.Buf
+	run    int
+	conf   sync.Map // full plugin name -> pconf
+	cfgUpd sync.Map // full plugin name -> issues an update from within Configure
 	// runtime bookkeeping
 	smu   sync.Mutex
 	store []string
@@ -220,6 +221,13 @@ func (s *session) handlers() *rig.Handlers {
 		return nil
 	}
 	return &rig.Handlers{
+		Configure: func(p *rig.Plugin, _, _, _ string) (api.EventMask, error) {
+			if _, ok := s.cfgUpd.Load(p.FullName()); ok && p.Stub != nil {
+				// a registered (not yet configured) plugin issues an unsolicited update
+				s.update(p, "cfg", 0)
+			}
+			return p.Mask, nil
+		},
 		Sync: func(p *rig.Plugin, pods []*api.PodSandbox, ctrs []*api.Container) ([]*api.ContainerUpdate, error) {
 			s.ev("recv.sync", "p", p.FullName(), "ids", ctrIDs(ctrs))
 			return nil, nil
@@ -263,6 +271,39 @@ func (s *session) handlers() *rig.Handlers {
 			s.perturb()
 			return veto(p, id)
 		},
+	}
+}
+
+// update issues one unsolicited update from plugin p and logs call and return (with a watchdog)
+func (s *session) update(p *rig.Plugin, tag string, i int) {
+	full := p.FullName()
+	kind := []string{"ok", "part", "err"}[s.rnd(3)]
+	uid := fmt.Sprintf("upd%d-%s-%s%d-%s", s.run, p.Name, tag, i, kind)
+	us := []*api.ContainerUpdate{{ContainerId: uid}, {ContainerId: uid + "/2"}}
+	us[0].SetLinuxCPUShares(uint64(100 + i))
+	s.ev("upd.call", "p", full, "uid", uid, "ids", []string{uid, uid + "/2"})
+	type res struct {
+		failed []*api.ContainerUpdate
+		err    error
+	}
+	done := make(chan res, 1)
+	go func() {
+		f, e := p.Stub.UpdateContainers(us)
+		done <- res{f, e}
+	}()
+	select {
+	case x := <-done:
+		fids := []string{}
+		for _, u := range x.failed {
+			fids = append(fids, u.ContainerId)
+		}
+		et := ""
+		if x.err != nil {
+			et = x.err.Error()
+		}
+		s.ev("upd.ret", "p", full, "uid", uid, "failed", fids, "err", x.err != nil, "errtext", et, "hung", false)
+	case <-time.After(4 * time.Second):
+		s.ev("upd.ret", "p", full, "uid", uid, "failed", []string{}, "err", true, "errtext", "watchdog: update did not return", "hung", true)
 	}
 }
 
@@ -406,6 +447,7 @@ func (s *session) oneRun(w *rec.Writer) error {
 	s.store = nil
 	s.finished = map[string]bool{}
 	s.conf = sync.Map{}
+	s.cfgUpd = sync.Map{}
 	o := s.o
 	s.ev("Begin", "plugins", o.Plugins, "callers", o.Callers, "timeout_ms", 2000)
 	r, err := rig.New()
@@ -473,8 +515,11 @@ func (s *session) oneRun(w *rec.Writer) error {
 	for k := 0; k < o.Plugins; k++ {
 		k := k
 		idx := s.rnd(100)
-		if s.rnd(3) == 0 {
+		switch s.rnd(4) {
+		case 0:
 			idx = 10 * s.rnd(3) // provoke equal indices
+		case 1:
+			idx = s.rnd(13) // leading-zero indices 00..12
 		}
 		var mask api.EventMask
 		if o.AllMasks {
@@ -499,6 +544,9 @@ func (s *session) oneRun(w *rec.Writer) error {
 		if o.Updates && s.rnd(2) == 0 {
 			nupd = 1 + s.rnd(2)
 		}
+		if o.Updates && s.rnd(4) == 0 {
+			s.cfgUpd.Store(full, true)
+		}
 		wg.Add(1)
 		go func() {
 			defer wg.Done()
@@ -514,22 +562,7 @@ func (s *session) oneRun(w *rec.Writer) error {
 			stmu.Unlock()
 			for i := 0; i < nupd; i++ {
 				time.Sleep(time.Duration(s.rnd(1500)) * time.Microsecond)
-				kind := []string{"ok", "part", "err"}[s.rnd(3)]
-				uid := fmt.Sprintf("upd%d-%s-%d-%s", s.run, name, i, kind)
-				us := []*api.ContainerUpdate{{ContainerId: uid}, {ContainerId: uid + "/2"}}
-				us[0].SetLinuxCPUShares(uint64(100 + i))
-				ids := []string{uid, uid + "/2"}
-				s.ev("upd.call", "p", full, "uid", uid, "ids", ids)
-				failed, err := p.Stub.UpdateContainers(us)
-				fids := []string{}
-				for _, u := range failed {
-					fids = append(fids, u.ContainerId)
-				}
-				et := ""
-				if err != nil {
-					et = err.Error()
-				}
-				s.ev("upd.ret", "p", full, "uid", uid, "failed", fids, "err", err != nil, "errtext", et)
+				s.update(p, "u", i)
 			}
 			if leave {
 				time.Sleep(leaveAfter)
